@@ -648,6 +648,8 @@ struct CaseOut {
     codes: Vec<(String, u32)>,
     panics: Vec<String>,
     max_depth: usize,
+    /// per executed op: (kind, exit code or STATICCALL flag, length of the returned / revert data)
+    results: Vec<(String, u32, usize)>,
 }
 
 const FAIL_PLAN_K: u64 = 60;
@@ -732,7 +734,7 @@ fn direct_preview(w: &World, c: &Contract, calldata: &[u8], value: u64) -> Optio
 }
 
 fn run_case(w: &mut World, pc: &PCase) -> CaseOut {
-    let mut out = CaseOut { case: None, fails: vec![], skip: None, codes: vec![], panics: vec![], max_depth: 0 };
+    let mut out = CaseOut { case: None, fails: vec![], skip: None, codes: vec![], panics: vec![], max_depth: 0, results: vec![] };
     let initcode = hex::decode(&pc.initcode).unwrap();
     let acct_id = w.acct.id().unwrap();
     let mut steps: Vec<(String, Vec<String>)> = vec![];
@@ -885,6 +887,7 @@ fn run_case(w: &mut World, pc: &PCase) -> CaseOut {
                     canon: &parsed.canon,
             ext: &parsed.ext,
                 };
+                out.results.push(("invoke".into(), c, data.len()));
                 let mut o = vec![c.to_string()];
                 obs_bytes(&mut o, &data);
                 obs_map(&mut o, &storage);
@@ -1000,6 +1003,7 @@ fn run_case(w: &mut World, pc: &PCase) -> CaseOut {
                     canon: &parsed.canon,
             ext: &parsed.ext,
                 };
+                out.results.push(("static".into(), if flag.is_zero() { 0 } else { 1 }, data.len()));
                 let mut o = vec![zs(&flag)];
                 obs_bytes(&mut o, &data);
                 obs_msgs(&mut o, &parsed);
@@ -1694,6 +1698,56 @@ struct JobOut {
     codes: Vec<(String, u32)>,
     panics: Vec<String>,
     max_depth: usize,
+    results: Vec<(String, u32, usize)>,
+}
+
+/// fixed programs whose outcome is dictated by the property itself (independent of the model):
+/// (name, runtime code, beneath STATICCALL?, monitor class when the expectation fails)
+fn probes() -> Vec<(&'static str, Vec<u8>, bool, &'static str)> {
+    let mut v: Vec<(&'static str, Vec<u8>, bool, &'static str)> = vec![
+        ("jump-into-push1-data", vec![0x60, 0x04, 0x56, 0x60, 0x5b, 0x00], false, "bad-jumpdest-accepted"),
+        ("jump-into-push2-data", vec![0x61, 0x00, 0x06, 0x56, 0x61, 0x5b, 0x5b, 0x00], false, "bad-jumpdest-accepted"),
+        ("jumpi-into-push32-data", {
+            let mut c = vec![0x60, 0x01, 0x60, 0x10, 0x57, 0x7f];
+            c.extend_from_slice(&[0x5b; 32]);
+            c.push(0x00);
+            c
+        }, false, "bad-jumpdest-accepted"),
+        ("static-sstore", vec![0x60, 0x01, 0x60, 0x01, 0x55, 0x60, 0x20, 0x5f, 0xfd], true, "readonly-effect"),
+        ("static-tstore", vec![0x60, 0x01, 0x60, 0x01, 0x5d, 0x60, 0x20, 0x5f, 0xfd], true, "readonly-effect"),
+        ("static-log0", vec![0x5f, 0x5f, 0xa0, 0x60, 0x20, 0x5f, 0xfd], true, "readonly-effect"),
+        ("static-log2", vec![0x5f, 0x5f, 0x5f, 0x5f, 0xa2, 0x60, 0x20, 0x5f, 0xfd], true, "readonly-effect"),
+        ("static-create", vec![0x5f, 0x5f, 0x5f, 0xf0, 0x60, 0x20, 0x5f, 0xfd], true, "readonly-effect"),
+        ("static-create2", vec![0x5f, 0x5f, 0x5f, 0x5f, 0xf5, 0x60, 0x20, 0x5f, 0xfd], true, "readonly-effect"),
+        ("static-selfdestruct", vec![0x5f, 0xff], true, "readonly-effect"),
+        ("static-call-with-value", vec![0x5f, 0x5f, 0x5f, 0x5f, 0x60, 0x01, 0x5f, 0x5a, 0xf1, 0x60, 0x20, 0x5f, 0xfd], true, "readonly-effect"),
+    ];
+    let zero = BigUint::zero();
+    v.push(("push-at-1024", stack_edge(1024, &zero, 0x5f, 0), false, "stack-over-1024"));
+    v.push(("address-at-1024", stack_edge(1024, &zero, 0x30, 0), false, "stack-over-1024"));
+    v.push(("pc-at-1024", stack_edge(1024, &zero, 0x58, 0), false, "stack-over-1024"));
+    v.push(("dup-at-1024", stack_edge(1024, &zero, 0x80, 0), false, "stack-over-1024"));
+    v
+}
+fn probe_case(name: &str, runtime: &[u8], stat: bool) -> PCase {
+    PCase {
+        genr: format!("probe:{}", name),
+        initcode: hex::encode(wrap_initcode(runtime)),
+        deploy_value: 0,
+        invokes: vec![Inv { calldata: String::new(), value: 0, depth: if stat { 1 } else { 0 }, inner_call: false }],
+    }
+}
+/// the property's own verdict on a probe
+fn probe_verdict(jo: &JobOut) -> Option<(String, String)> {
+    let name = jo.pcase.genr.strip_prefix("probe:")?;
+    let (_, _, _, class) = probes().into_iter().find(|p| p.0 == name)?;
+    let r = jo.results.last()?;
+    let ok = match class {
+        "bad-jumpdest-accepted" => r.1 == 39,
+        "stack-over-1024" => r.1 == 37 && jo.max_depth <= 1024,
+        _ => r.1 == 0 && r.2 == 0, // beneath STATICCALL: the callee must fail without data
+    };
+    if ok { None } else { Some((class.to_string(), format!("probe {}: got {} / {} bytes / depth {}", name, r.1, r.2, jo.max_depth))) }
 }
 
 fn worker_main(thorough: bool) {
@@ -1727,6 +1781,7 @@ fn worker_main(thorough: bool) {
             codes: out.codes,
             panics: out.panics,
             max_depth: out.max_depth,
+            results: out.results,
         };
         let mut o = stdout.lock();
         writeln!(o, "{}", serde_json::to_string(&jo).unwrap()).unwrap();
@@ -1826,6 +1881,9 @@ fn main() {
                 }
             }
         }
+        for (name, runtime, stat, _) in probes() {
+            jobs.push(Job::Replay(probe_case(name, &runtime, stat)));
+        }
         let n_edge = edge_plan(thorough).len();
         let mode = a.rest.get("mode").cloned().unwrap_or_default();
         if mode == "edge" {
@@ -1868,11 +1926,14 @@ fn main() {
                     stats.monitor_fail(serde_json::json!({"class": "panic", "what": [p], "case": jo.pcase}));
                 }
                 max_depth = max_depth.max(jo.max_depth);
+                if let Some((class, what)) = probe_verdict(&jo) {
+                    stats.monitor_fail(serde_json::json!({"class": class, "what": [what], "case": jo.pcase}));
+                }
                 for f in jo.fails {
                     stats.monitor_fail(f);
                 }
                 match (jo.skip, jo.case) {
-                    (Some(s), _) => *skips.entry(s).or_insert(0) += 1,
+                    (Some(s), _) => *skips.entry(format!("{}/{}", s, jo.pcase.genr.split(':').next().unwrap_or(""))).or_insert(0) += 1,
                     (None, Some((init, steps, nontrivial))) => cw.push(Case { init, steps, nontrivial }),
                     _ => {}
                 }
